@@ -177,9 +177,13 @@ LIB_ASM = 'LIB_K = 3\ninclude chip.asm\nlib_entry:\naddi x5, x5, LIB_K\n'
 CHIP_ASM = 'CHIP_BASE = 0x40021000\nCHIP_IRQ = 19\n'
 
 
+HOME = os.path.realpath(os.getcwd())    # the working directory of the check itself: every call of a history starts and must end there
+
+
 class History(RuleBasedStateMachine):
     def __init__(self):
         super().__init__()
+        os.chdir(HOME)
         # every history starts from a freshly executed copy of the module, so that state leaking out of one
         # history cannot make the next one irreproducible (the leak itself is caught inside the history)
         self.a = fresh_module()
@@ -364,7 +368,7 @@ class History(RuleBasedStateMachine):
         self.ops.append(['reltext', where, compress])
         ref = fresh(text, compress, {}, {}, ['rel'], 'reltext', cwd=cwd)
         lin, cin = {}, {}
-        old = os.getcwd()
+        old = HOME
         os.chdir(cwd)
         try:
             try:
@@ -393,7 +397,7 @@ class History(RuleBasedStateMachine):
         self.ops.append(['text', where, compress, big])
         ref = fresh(text, compress, {}, {}, None, 'text#local=%r' % (self.local_k,), cwd=cwd)
         lin, cin = {}, {}
-        old = os.getcwd()
+        old = HOME
         os.chdir(cwd)
         try:
             try:
@@ -454,6 +458,19 @@ class History(RuleBasedStateMachine):
             if lin != ls or cin != cs:
                 raise env.CaseFailure('history:aliasing', 'a dictionary handed back by an earlier call was changed by a later call: %r -> %r' % (ls, lin),
                                       {'kind': 'history', 'pool': self.original, 'ops': self.ops})
+
+    @invariant()
+    def working_directory_unchanged(self):
+        # the working directory is an input of every later call (relative paths, includes of a source text): a call that leaves the
+        # process somewhere else makes later calls with the same arguments give something else
+        try:
+            now = os.path.realpath(os.getcwd())
+        except OSError:
+            now = '<a directory that no longer exists>'
+        if now != HOME:
+            os.chdir(HOME)
+            raise env.CaseFailure('history:cwd', 'a call left the process in another working directory (%s instead of %s)' % (now, HOME),
+                                  {'kind': 'history', 'pool': self.original, 'ops': self.ops})
 
     @invariant()
     def module_tables_unchanged(self):
@@ -779,6 +796,7 @@ def replay(path):
                     r[2], r[3] = copy.deepcopy(r[0]), copy.deepcopy(r[1])
                 m.earlier_results_untouched()
                 m.earlier_outputs_untouched()
+                m.working_directory_unchanged()
                 m.module_tables_unchanged()
         finally:
             import shutil
